@@ -417,7 +417,7 @@ def run(ch, render=False):
             finally:
                 try:
                     gen.close()
-                except BaseException:
+                except Exception:
                     pass
     finally:
         pk.ccsds_generator = orig_gen
